@@ -15,6 +15,16 @@ from .seams import import_py7zr
 SIM_PATH = "/sim/archive.7z"
 
 
+import collections
+
+Mem = collections.namedtuple("Mem", "name data kind mtime attrs")  # mtime: FILETIME int or None (= set from the clock)
+
+
+def pairs(added):
+    """(name, bytes) of the members that carry data (files and symlinks), in order."""
+    return [(m.name, m.data) for m in added if m.kind != "dir"]
+
+
 class Rejected(Exception):
     """py7zr refused the filter chain before writing any member (counted, not a violation)."""
 
@@ -105,6 +115,22 @@ def run_write_session(fs: SimFS, sess: dict, kind: str = "path", bufsize: int = 
                         bio = io.BytesIO(raw)
                         data = raw
                     z.writef(bio, op["name"])
+                elif op["op"] == "write":
+                    src = _materialize_source(op)
+                    z.write(src, op["name"])
+                elif op["op"] == "writeall":
+                    from . import tree as _tree
+
+                    root = _materialize_tree(op)
+                    z.writeall(root, op["name"])
+                    for nm, kind, payload in _tree.writeall_order(op["tree"], op["name"]):
+                        e = next((x for x in op["tree"] if nm == op["name"] + "/" + x["path"]), None)
+                        if kind == "dir":
+                            added.append(Mem(nm, None, "dir", None, None))
+                        elif kind == "file":
+                            added.append(Mem(nm, payload, "file", _tree.to_filetime(e["mtime_ns"]), e["mode"]))
+                        else:
+                            added.append(Mem(nm, payload.encode("utf-8"), "symlink", None, None))
                 else:
                     raise ValueError(op["op"])
             except py7zr.exceptions.UnsupportedCompressionMethodError as e:
@@ -112,7 +138,12 @@ def run_write_session(fs: SimFS, sess: dict, kind: str = "path", bufsize: int = 
                     raise Rejected(repr(e))
                 raise
             first = False
-            added.append((op["name"], data))
+            if op["op"] == "write":
+                from . import tree as _tree
+
+                added.append(Mem(op["name"], data, "file", _tree.to_filetime(op["mtime_ns"]), op.get("mode")))
+            elif op["op"] != "writeall":
+                added.append(Mem(op["name"], data, "file", None, None))
             if after_op is not None:
                 after_op(i)
         z.close()
@@ -134,6 +165,48 @@ def run_write_session(fs: SimFS, sess: dict, kind: str = "path", bufsize: int = 
             if error is None:
                 error = e
     return added, error
+
+
+def _src_dir():
+    from . import driver
+
+    d = os.path.join(driver.worker_scratch(), "src")
+    os.makedirs(d, exist_ok=True)
+    return d
+
+
+_SRC_COUNTER = [0]
+
+
+def _materialize_source(op):
+    d = _src_dir()
+    _SRC_COUNTER[0] += 1
+    p = os.path.join(d, "f%d" % _SRC_COUNTER[0])
+    with open(p, "wb") as f:
+        f.write(gen.materialize(op["content"]))
+    os.chmod(p, op.get("mode", 0o644))
+    os.utime(p, ns=(op["mtime_ns"], op["mtime_ns"]))
+    return p
+
+
+def _materialize_tree(op):
+    from . import tree as _tree
+
+    d = _src_dir()
+    _SRC_COUNTER[0] += 1
+    root = os.path.join(d, "t%d" % _SRC_COUNTER[0])
+    _tree.build_tree(root, op["tree"])
+    return root
+
+
+def cleanup_sources():
+    import shutil
+
+    from . import tree as _tree
+
+    d = _src_dir()
+    _tree.make_removable(d)
+    shutil.rmtree(d, ignore_errors=True)
 
 
 def _absorb_dealloc_noise(collect=True):
